@@ -155,11 +155,22 @@ Section PoolGuard.
     forallb (fun i => forallb (fun j => forallb (fun k => implb (tst i j && tst j k) (tst i k)) idx) idx) idx.
   Definition pool_ok : bool := pool_coherent && pool_equiv.
 End PoolGuard.
-(* keys on which the implementation is coherent under eql: nil, t, fixnums, characters, strings, symbols
-   (compared by value / spelling by eql and by Go's ==), vectors (by identity by both) and lists (refused with
-   a type-error; eql relates a list to nothing but itself) *)
+(* keys on which the implementation is coherent under eql: nil, t, characters, strings, symbols (compared by
+   value / spelling by eql and by Go's ==), vectors (by identity by both), lists (refused with a type-error; eql
+   relates a list to nothing but itself) and the exact numbers in the representation the reader gives them:
+   fixnums (int64), bignums outside int64 and ratios in lowest terms with a denominator above 1 (found by value
+   since repair C16-5).  Excluded: floats, and the non-canonical representations (a bignum inside int64, a
+   ratio n/1) that eql identifies with a fixnum while the table keeps them apart - finding
+   C16-hash-eql-numbers-are-different-keys.  The bound on ratio numerators is the one of sym_guard (finding
+   C16-eql-bignum-ratio-not-symmetric: beyond it eql may relate a ratio to a bignum). *)
 Definition simple_key (x : obj) : bool :=
-  match x with Nil | Tru | Fix _ | Chr _ | Str _ | Sym _ | Vec _ | Lst _ => true | _ => false end.
+  match x with
+  | Nil | Tru | Chr _ | Str _ | Sym _ | Vec _ | Lst _ => true
+  | Fix z => int64_ok z
+  | Big z => negb (int64_ok z)
+  | Rat n d => (0 <? d) && (Z.gcd n d =? 1) && negb (d =? 1) && (Z.abs n <? 2 ^ 62)
+  | _ => false
+  end.
 Definition simple_pool (pool : list ref) : bool := forallb (fun r => simple_key (r_obj r)) pool.
 (* nil and t are each one interface value: all their references carry the same data word *)
 Definition const_words (a b : ref) : Prop :=
